@@ -224,7 +224,7 @@ def native_remove_innovation_battery(seed=0):
     return problems, sc
 
 
-def native_sequence(seed=0, linear=False, k_edit=3.0, container="set", assumptions=False):
+def native_sequence(seed=0, linear=False, k_edit=3.0, container="set", assumptions=False, scale=None):
     """STATEFUL bounded check: one filter instance with two sensors of DIFFERENT reading dimension, driven through a sequence of
     Jacobian evaluations at different points (different dt), predictions (dt of the point, 0, another dt) and alternating
     sensor updates (near and far readings).  Every result is compared with the exact oracle at ITS OWN inputs, so state kept
@@ -232,6 +232,9 @@ def native_sequence(seed=0, linear=False, k_edit=3.0, container="set", assumptio
     import numpy as np
 
     sc = scenarios.Scenario(3, 1, 2, [1, 2], seed=seed, linear=linear, assumptions=assumptions)
+    if scale:
+        # very precise sensors on a very small prior (values far below 1e-6): supplied noise must be used as supplied
+        sc.sensor_noises = {kx: {r: v * scale for r, v in m.items()} for kx, m in sc.sensor_noises.items()}
     try:
         py, ekf = scenarios.build_ekf(sc, config={"innovation_filtering": k_edit}, container=container)
     except Exception as e:
@@ -243,6 +246,8 @@ def native_sequence(seed=0, linear=False, k_edit=3.0, container="set", assumptio
     pts = [sc.point(seed), sc.point(seed + 1), sc.point(seed)]
     pts[1][sc.dt] = pts[0][sc.dt] * 3  # a different step length at the second point
     P = spd(n, seed + 2)
+    if scale:
+        P = P * rat(Fraction(scale).limit_denominator(10**12))
     Pnp = np.array(P.tolist(), dtype=float).reshape((n, n))
     try:
         for step, pt in enumerate(pts):
@@ -263,6 +268,28 @@ def native_sequence(seed=0, linear=False, k_edit=3.0, container="set", assumptio
             d = mat_diff(f"prediction {step} (dt={float(dtv)}): state", r.state.data, o["state"]) or mat_diff(f"prediction {step} (dt={float(dtv)}): covariance", r.covariance.data, o["covariance"])
             if d:
                 problems.append(d)
+        # CHAINED predictions: each output is fed back in; earlier outputs and inputs must stay what they were
+        pt = dict(base)
+        state, ctl = scenarios.named_state(ekf, sc, pt), scenarios.named_control(ekf, sc, pt)
+        cov = ekf.Covariance.from_data(Pnp.copy())
+        Pk = P
+        kept = []
+        for step in range(3):
+            cov_in = cov.data.copy()
+            r = ekf.process_model(float(pt[sc.dt]), state, cov, ctl)
+            o = oracle(sc, pt, Pk)
+            d = mat_diff(f"prediction chain step {step}: covariance", r.covariance.data, o["covariance"], tol=1e-7)
+            if d:
+                problems.append(d)
+            if not np.array_equal(cov.data, cov_in):
+                problems.append(f"prediction chain step {step}: the call modified the covariance it was given")
+            for j, (obj, snap) in enumerate(kept):
+                if not np.array_equal(obj.data, snap):
+                    problems.append(f"prediction chain step {step}: the covariance returned by step {j} changed afterwards")
+            kept.append((r.covariance, r.covariance.data.copy()))
+            cov, Pk = r.covariance, o["covariance"]
+            if problems:
+                break
         rng = random.Random(seed + 9)
         keys = sorted(sc.sensor_models, key=lambda kx: len(sc.sensor_models[kx]))  # m=1 first, then m=2, alternating
         pt = base
